@@ -379,6 +379,53 @@ pub fn run(run: &Run) {
         });
     }
 
+    // ---- trait forms on operands of magnitude 2^-60 (distinct matrices that an absolute comparison at machine epsilon
+    // cannot tell apart), on A and -A, and on A and the zero matrix --------------------------------------------------
+    {
+        let shapes = [(3usize, 4usize, 5usize), (4, 4, 4), (2, 6, 2), (8, 8, 8), (5, 3, 5), (1, 7, 1)];
+        let sc = 2f64.powi(-60);
+        for &(m, l, n) in &shapes {
+            for which in 0..4usize {
+                let (ta, tb) = [(false, false), (true, false), (false, true), (true, true)][which];
+                let (ar, ac) = if ta { (l, m) } else { (m, l) };
+                let (br, bc) = if tb { (n, l) } else { (l, n) };
+                let a0 = fill(ar, ac, 0);
+                let mut partners: Vec<(&str, Vec<f64>)> = vec![("another tiny matrix", fill(br, bc, 50)), ("the zero matrix", vec![0.0; br * bc])];
+                if (ar, ac) == (br, bc) {
+                    partners.push(("its own negative", a0.iter().map(|v| -v).collect()));
+                    partners.push(("itself shifted by one unit", a0.iter().map(|v| v + 1.0).collect()));
+                }
+                for (pname, b0) in partners {
+                    run.case();
+                    run.tr();
+                    run.ok();
+                    run.nontrivial(1);
+                    let (want, wr, wc) = ref_mm(&a0, ar, ac, ta, &b0, br, bc, tb).unwrap();
+                    let am = Matrix::new(a0.iter().map(|v| v * sc).collect::<Vec<f64>>(), ar as i32, ac as i32);
+                    let bm = Matrix::new(b0.iter().map(|v| v * sc).collect::<Vec<f64>>(), br as i32, bc as i32);
+                    let name = ["dot", "t_dot", "dot_t", "t_dot_t"][which];
+                    let r = guard(|| match which {
+                        0 => am.dot(&bm),
+                        1 => am.t_dot(&bm),
+                        2 => am.dot_t(&bm),
+                        _ => am.t_dot_t(&bm),
+                    });
+                    match r {
+                        Ok(g) => {
+                            let back: Vec<f64> = g.data.v.iter().map(|v| v / sc / sc).collect();
+                            if g.shape() != [wr, wc] || !same(&back, &want) {
+                                run.violate(&format!("Dot/MatMat/{}/tiny-operands", name), || format!("A {}x{} * 2^-60 .{}( {} ): got (rescaled) {:?}, want sixteenths {:?}", ar, ac, name, pname, back, want));
+                            } else {
+                                run.regime("tiny-operands-trait-forms");
+                            }
+                        }
+                        Err(p) => run.violate("Dot/MatMat/panic-on-conformable", || format!("tiny operands {}x{} {} {}x{}: {}", ar, ac, name, br, bc, p)),
+                    }
+                }
+            }
+        }
+    }
+
     // ---- Dot trait: Matrix · Matrix ------------------------------------------------------
     let sd = run.tier.pick(5usize, 9usize);
     run.bound("Dot shape pairs", format!("(r1,c1,r2,c2) in 1..={}^4, all 16 method×form combinations", sd));
